@@ -93,31 +93,36 @@ FamA == {[id |-> "A", cmd |-> c, inp |-> i,
                                           "force_constants.hdf5"}) : WellFormed(x)},
          d \\in %s, r \\in B, h \\in B, y \\in B, f \\in {"", "traditional", "symfc"}}
 FamN == {[id |-> "N", cmd |-> c, inp |-> i, s |-> [SBase EXCEPT !.mode = "mesh", !.nac = n, !.disp = d, !.dim = TRUE]] :
-         c \\in Cmds, i \\in {x \\in SUBSET {"cell", "yaml", "yaml_nac", "yaml_calc", "yaml_nac_factor", "BORN",
-                                          "BORN_factor", "FORCE_SETS"} : WellFormed(x)},
+         c \\in Cmds, i \\in {x \\in SUBSET (%s \\cup {"yaml", "yaml_nac", "yaml_calc", "yaml_nac_factor", "BORN",
+                                          "BORN_factor"}) : WellFormed(x)},
          n \\in B, d \\in B}
 FamF == {[id |-> "F", cmd |-> c, inp |-> i, s |-> [SBase EXCEPT !.fsets = f, !.fsz = z, !.save_params = p]] :
          c \\in Cmds, i \\in SUBSET {"disp", "yaml", "forcefiles", "FORCE_SETS"}, f \\in B, z \\in B, p \\in B}
+ModeSub(ts) == {p \\in {"none", "mesh", "band", "band_mesh", "qpoints", "anime", "modulation", "irreps"} \\X ts :
+                  p[1] \\in {"mesh", "band_mesh"} \\/ (\\A k \\in 1..6 : ~p[2][k])}
 FamM == {[id |-> "M", cmd |-> c, inp |-> {"yaml", "FORCE_SETS"} \\cup q,
-          s |-> [SBase EXCEPT !.mode = m, !.tprop = t[1], !.tdisp = t[2], !.tdm = t[3], !.pdos = t[4],
-                              !.dos = t[5], !.moment = t[6], !.wmesh = w, !.mesh_hdf5 = h, !.band_hdf5 = h,
-                              !.qp_hdf5 = h, !.readq = rq, !.qgiven = qg, !.cif = t[3] /\\ w]] :
-         c \\in Cmds, q \\in {{}, {"QPOINTS"}},
-         m \\in {"none", "mesh", "band", "band_mesh", "qpoints", "anime", "modulation", "irreps"},
-         t \\in %s, w \\in B, h \\in %s, rq \\in B, qg \\in B}
+          s |-> [SBase EXCEPT !.mode = mt[1], !.tprop = mt[2][1], !.tdisp = mt[2][2], !.tdm = mt[2][3],
+                              !.pdos = mt[2][4], !.dos = mt[2][5], !.moment = mt[2][6], !.wmesh = w, !.mesh_hdf5 = h,
+                              !.band_hdf5 = h, !.qp_hdf5 = h, !.readq = rq, !.qgiven = qg, !.cif = mt[2][3] /\\ w]] :
+         c \\in Cmds, q \\in {{}, {"QPOINTS"}}, mt \\in ModeSub(%s), w \\in B, h \\in %s, rq \\in B, qg \\in B}
 FamP == {[id |-> "P", cmd |-> c, inp |-> {"yaml", "FORCE_SETS"},
           s |-> [SBase EXCEPT !.mode = "mesh", !.writefc = w, !.wfmt_hdf5 = h, !.spg = g, !.fullfc = u, !.cutoff = k,
                               !.fcsym = y, !.fccalc = f, !.save_params = p]] :
          c \\in Cmds, w \\in B, h \\in B, g \\in B, u \\in B, k \\in B, y \\in B, p \\in B,
          f \\in {"", "traditional", "symfc"}}
-FamX == {[id |-> "X", cmd |-> c, inp |-> i, s |-> [SBase EXCEPT !.bulk_only = b, !.calcs_ok = k, !.band_hdf5 = h]] :
-         c \\in AuxCmds, b \\in B, k \\in B, h \\in B,
-         i \\in SUBSET {"e-v.dat", "thermal_properties_set", "infile", "outfile", "band.yaml", "band.hdf5",
-                       "thermal_properties.yaml", "OUTCAR", "POSCAR"}}
+AuxFam(c, files, bs, ks, hs) ==
+  {[id |-> "X", cmd |-> c, inp |-> i, s |-> [SBase EXCEPT !.bulk_only = b, !.calcs_ok = k, !.band_hdf5 = h]] :
+   i \\in SUBSET files, b \\in bs, k \\in ks, h \\in hs}
+FamX == AuxFam("qha", {"e-v.dat", "thermal_properties_set"}, B, {FALSE}, {FALSE})
+        \\cup AuxFam("convert", {"infile", "outfile"}, {FALSE}, B, {FALSE})
+        \\cup AuxFam("bandplot", {"band.yaml", "band.hdf5"}, {FALSE}, {FALSE}, B)
+        \\cup AuxFam("propplot", {"thermal_properties.yaml", "band.yaml"}, {FALSE}, {FALSE}, {FALSE})
+        \\cup AuxFam("vaspborn", {"OUTCAR", "POSCAR"}, {FALSE}, {FALSE}, {FALSE})
 MCWCases == FamA \\cup FamN \\cup FamF \\cup FamM \\cup FamP \\cup FamX
 MCInstalled == {"traditional"}
 ====
-""" % (to_tla(SBASE), "{}" if quick else '{"cell"}', "{FALSE}" if quick else "B", tset, hset)
+""" % (to_tla(SBASE), "{}" if quick else '{"cell"}', "{FALSE}" if quick else "B",
+       '{"FORCE_SETS"}' if quick else '{"cell", "FORCE_SETS"}', tset, hset)
 
 
 # ---------------------------------------------------------------------------------------------
